@@ -213,7 +213,11 @@ class AsyncFIXConnection:
             self.log.info(f"Client disconnected, with state: {repr(disconn_state)}")
             if self._socket_writer:
                 self._socket_writer.close()
-                await self._socket_writer.wait_closed()
+                try:
+                    await self._socket_writer.wait_closed()
+                except OSError:
+                    # transport already failed (wait_closed re-raises that error)
+                    pass
             self._socket_writer = None
             self._socket_reader = None
             await self._state_set(disconn_state)
